@@ -32,6 +32,7 @@ type TimerCase struct {
 	HostClk  bool    `json:"hostClock"`
 	Proc     bool    `json:"process"` // (c) a process with a timer catch event
 	PreTask  bool    `json:"preTask"`
+	SecondAt int     `json:"secondAt"` // (process) a second instance of the same definitions is created through the same builder before this step (-1 never)
 	NoSettle bool    `json:"noSettle"` // the clock is moved without waiting for the timer goroutines to settle (arming races the jumps)
 	def      *schema.TimerEventDefinition
 	defs     *schema.Definitions
@@ -166,25 +167,33 @@ func (t *TimerCase) mainProc(ctx context.Context, cancel context.CancelFunc, moc
 	builder := event.DefinitionInstanceBuildingChain(timer.EventDefinitionInstanceBuilder(cctx, fan, tracer))
 	traces := tracer.SubscribeChannel(make(chan tracing.ITrace, 64))
 	engine := bpmn.NewEngine(bpmn.WithEngineContext(cctx))
-	proc, err := engine.NewProcess(t.defs, bpmn.WithContext(cctx), bpmn.WithTracer(tracer), bpmn.WithIdGenerator(&ctrGen{prefix: "id"}),
-		bpmn.WithProcessEventDefinitionInstanceBuilder(builder), bpmn.WithEventEgress(fan), bpmn.WithEventIngress(fan))
-	if err != nil {
-		L.Add("fatal", err.Error(), "", 0)
-		return
-	}
+	gen := &ctrGen{prefix: "id"}
 	pending := make(chan bpmn.TaskTrace, 16)
 	go func() {
 		for tr := range traces {
 			k, a, b := describe(tracing.Unwrap(tr))
+			if k == "task" {
+				b = instanceOf(tr)
+			}
 			L.Add("t:"+k, a, b, 0)
 			if tt, ok := tracing.Unwrap(tr).(bpmn.TaskTrace); ok {
 				pending <- tt
 			}
 		}
 	}()
-	if err := proc.StartAll(cctx); err != nil {
-		L.Add("fatal", err.Error(), "", 0)
+	newInstance := func(label string) {
+		proc, err := engine.NewProcess(t.defs, bpmn.WithContext(cctx), bpmn.WithTracer(tracer), bpmn.WithIdGenerator(gen),
+			bpmn.WithProcessEventDefinitionInstanceBuilder(builder), bpmn.WithEventEgress(fan), bpmn.WithEventIngress(fan))
+		if err != nil {
+			L.Add("fatal", err.Error(), "", 0)
+			return
+		}
+		L.Add("instance", label, proc.Id().String(), 0)
+		if err := proc.StartAll(cctx); err != nil {
+			L.Add("fatal", err.Error(), "", 0)
+		}
 	}
+	newInstance("first")
 	answer := func() {
 		for {
 			select {
@@ -199,6 +208,10 @@ func (t *TimerCase) mainProc(ctx context.Context, cancel context.CancelFunc, moc
 	settle()
 	L.AddV("clock", "", int64(0))
 	for i, st := range t.Steps {
+		if t.SecondAt == i {
+			newInstance("second")
+			settle()
+		}
 		if t.PreTask && i == len(t.Steps)/2 {
 			answer() // the token reaches the timer catch event only now
 			settle()
@@ -208,8 +221,8 @@ func (t *TimerCase) mainProc(ctx context.Context, cancel context.CancelFunc, moc
 			answer()
 			settle()
 		}
+		L.AddV("clock", "", st) // logged before the jump: its effects are observed by other goroutines
 		mock.Set(time.Unix(0, st))
-		L.AddV("clock", "", st)
 		settle()
 	}
 	answer()
@@ -222,7 +235,7 @@ func (t *TimerCase) mainProc(ctx context.Context, cancel context.CancelFunc, moc
 const ms = int64(time.Millisecond)
 
 func genC13(d *Draw) Case {
-	t := &TimerCase{CancelAt: -1, StartMs: -1, EndMs: -1, Reps: -1}
+	t := &TimerCase{CancelAt: -1, StartMs: -1, EndMs: -1, Reps: -1, SecondAt: -1}
 	var marks []int64 // due instants (ns) the grid is built around
 	switch d.N(3) {
 	case 0:
@@ -324,6 +337,10 @@ func genC13(d *Draw) Case {
 			t.Proc = true
 			t.PreTask = d.Bool()
 			t.CancelAt = -1
+			if !t.PreTask && d.Bool() {
+				// a second instance of the same definitions, built through the same event-definition builder
+				t.SecondAt = d.N(len(t.Steps))
+			}
 		}
 	}
 	return t
@@ -472,7 +489,61 @@ func checkC13(cc Case, r *simrt.Result) *Outcome {
 			vl.add("C13/wrong-count", "timer %s fired %d time(s), more than the %d the definition prescribes", t.Spec, fires, want[last])
 		}
 	}
-	if ended && t.Proc {
+	if ended && t.Proc && t.SecondAt >= 0 {
+		// two instances: each has its own timer, armed when the instance was created
+		inst := map[string]string{} // instance id -> label
+		reqs := map[string]int{}
+		clocks := append([]int64{0}, t.Steps...)
+		stepNow := 0
+		nclock := 0
+		createdAt := map[string]int64{}
+		early := ""
+		for _, ev := range t.env.L.E {
+			switch ev.Kind {
+			case "instance":
+				inst[ev.B] = ev.A
+				createdAt[ev.A] = clocks[stepNow]
+			case "clock":
+				nclock++
+				stepNow = nclock - 1
+			case "t:task":
+				if ev.A == "T1" {
+					lab := inst[ev.B]
+					reqs[lab]++
+					due := t.DueMs * ms
+					if t.Kind == "duration" {
+						due += createdAt[lab]
+					}
+					now := clocks[stepNow]
+					if stepNow < len(clocks) && now < due {
+						early = fmt.Sprintf("instance %q continued behind its timer at clock %dns, its timer (%s, instance created at %dns) is due at %dns", lab, now, t.Spec, createdAt[lab], due)
+					}
+				}
+			}
+		}
+		if early != "" {
+			vl.add("C13/process-timer", "%s", early)
+		}
+		final := clocks[len(clocks)-1]
+		for _, lab := range []string{"first", "second"} {
+			due := t.DueMs * ms
+			if t.Kind == "duration" {
+				due += createdAt[lab]
+			}
+			expect := 0
+			if final >= due {
+				expect = 1
+			}
+			// a date timer that was already past due when the instance was created has fired before the
+			// token listened: that instance never continues
+			if t.Kind == "date" && createdAt[lab] >= due && lab == "second" {
+				expect = -1
+			}
+			if expect >= 0 && reqs[lab] != expect {
+				vl.add("C13/process-timer", "instance %q: the task behind its timer catch event was requested %d time(s), expected %d (timer %s, instance created at clock %dns, history %v)", lab, reqs[lab], expect, t.Spec, createdAt[lab], t.Steps)
+			}
+		}
+	} else if ended && t.Proc {
 		// a process continues exactly once per firing it was listening for (date/duration timers fire once)
 		last := len(want) - 1
 		expect := want[last]
@@ -493,6 +564,7 @@ func checkC13(cc Case, r *simrt.Result) *Outcome {
 	probe(o, "cancelled", cancelled)
 	probe(o, "host-clock", t.HostClk)
 	probe(o, "process-level", t.Proc)
+	probe(o, "two-instances-one-builder", t.Proc && t.SecondAt >= 0)
 	probe(o, "cycle", t.Kind == "cycle")
 	o.Sample = map[string]any{"definition": t.Spec, "clock_steps_ns": t.Steps, "cancelBeforeStep": t.CancelAt, "hostClock": t.HostClk, "process": t.Proc, "fired": fires}
 	return o
